@@ -85,6 +85,23 @@ Ltac solve_z P32 C32 P64 C64 CHK unlock lits :=
   (* atoms whose argument depended on an earlier atom (sign bit of a comparison mask ...) are now applied to literals or variables *)
   repeat (gen1 P32 C32 P64 C64); destruct_bools; vm_compute; try reflexivity; repeat (step; vm_compute; try reflexivity).
 
+(* variant that remembers which atom each boolean stands for (C20: the two sides of an erasure lemma expose the same comparison at
+   different moments, the asserting side only after its assertion has been decided) *)
+Ltac gen1e P32 C32 P64 C64 :=
+  match goal with
+  | |- context[P32 ?p ?x] => tryif has_atom P32 C32 P64 C64 x then fail else (let b := fresh "atm" in let E := fresh "Eatm" in remember (P32 p x) as b eqn:E; symmetry in E)
+  | |- context[C32 ?c ?x ?y] => tryif first [has_atom P32 C32 P64 C64 x | has_atom P32 C32 P64 C64 y] then fail else (let b := fresh "atm" in let E := fresh "Eatm" in remember (C32 c x y) as b eqn:E; symmetry in E)
+  | |- context[P64 ?p ?x] => tryif has_atom P32 C32 P64 C64 x then fail else (let b := fresh "atm" in let E := fresh "Eatm" in remember (P64 p x) as b eqn:E; symmetry in E)
+  | |- context[C64 ?c ?x ?y] => tryif first [has_atom P32 C32 P64 C64 x | has_atom P32 C32 P64 C64 y] then fail else (let b := fresh "atm" in let E := fresh "Eatm" in remember (C64 c x y) as b eqn:E; symmetry in E)
+  end.
+Ltac clear_unused_e := repeat match goal with H : ?T |- _ => lazymatch T with (@eq bool _ _) => fail | _ => clear H end end.
+Ltac use_atoms := repeat match goal with E : @eq bool ?a ?b |- context[?a] => rewrite E end.
+Ltac solve_ze P32 C32 P64 C64 CHK unlock lits :=
+  vm_compute; try reflexivity; lits; cbv beta iota; try reflexivity; repeat (gen1e P32 C32 P64 C64);
+  unlock; clear_unused_e; destruct_bools; vm_compute; try reflexivity; lits; vm_compute; try reflexivity;
+  repeat (use_atoms; vm_compute; try reflexivity; repeat (gen1e P32 C32 P64 C64); destruct_bools; vm_compute; try reflexivity);
+  repeat (step; vm_compute; try reflexivity).
+
 (* variant for functions dominated by index / enum arithmetic (Euler orders): integer primitives concrete from the start *)
 Ltac solve_zc unlock lits :=
   unlock; vm_compute; try reflexivity; lits; vm_compute; try reflexivity; clear_unused; repeat (step; vm_compute; try reflexivity).
